@@ -59,12 +59,26 @@ def run_check(pid, tier, seed):
             print(f'MACHINERY-FAILURE property={pid}: {recheck}')
             return 2
     res = Result()
+    from . import par
+    del par.DRIFT[:]
     try:
         mod.run(tier, seed, res, lean)
     except Exception:
-        print(f'MACHINERY-FAILURE property={pid}:')
-        traceback.print_exc()
-        return 2
+        if not par.DRIFT:
+            print(f'MACHINERY-FAILURE property={pid}:')
+            traceback.print_exc()
+            return 2
+        # a suite could not be driven at all and what follows it depends on its results
+        par.DRIFT.append((f'cv.props.{pid.lower()}.run', traceback.format_exc()[-3000:]))
+    if par.DRIFT:
+        # the harness drives internal interfaces of /repo (edge classes, containers, caches); when one of them changes the model can no
+        # longer be compared with the code on those cases: the tie of the theorems to the code is lost there.  The suites that still
+        # run search for a failing input; this entry names what could not be driven.
+        where = sorted({w for w, _ in par.DRIFT})
+        res.violations.append(Violation(
+            'correspondence-not-drivable',
+            f'{len(par.DRIFT)} job(s) of {", ".join(where)[:200]} raised while driving the code under test: {par.DRIFT[0][1].strip().splitlines()[-1][:300]}',
+            {'suite': where, 'theorems': list(lean['theorems']), 'tracebacks': [t for _, t in par.DRIFT[:3]]}, found_input=False))
     if not lean['ok']:
         # a generated obligation (constants regenerated from /repo) no longer checks and no suite found an input
         if not res.violations:
